@@ -181,7 +181,7 @@ def judge(ctx: Ctx, fr: Any, before_results: List[Any], before_gt: List[Any]) ->
         thr = matching.label_threshold(g, cfg.target_labels, cfg.matching_threshold_list)
         if thr is not None:
             s, amb = matching.oracle_score(e, g, mode, transforms)
-            if amb < BOUNDARY or abs(s - thr) < BOUNDARY:
+            if amb < BOUNDARY or matching.threshold_margin(mode, s, thr) < BOUNDARY:
                 ctx.count("C03.skipped_boundary")
             else:
                 ctx.check(matching.better(mode, s, thr), "C03/tp_beyond_threshold", dict(info, score=s, threshold=thr, est=O.describe(e), gt=O.describe(g)), tap)
